@@ -17,6 +17,8 @@ def allGramQ (N : Nat) : Bool :=
       gramQ n n' m == (if n = n' then (1 : Rat) / (((2 * (n + 1) : Nat) : Int) : Rat) else 0)
 
 theorem allAtOne_40 : allAtOne 40 = true := by decide +kernel
+theorem allCoeffExact_40 : allCoeffExact 40 = true := by decide +kernel
+theorem allBinomial_40 : allBinomial 40 = true := by decide +kernel
 theorem allGramQ_20 : allGramQ 20 = true := by decide +kernel
 
 end Lentil
